@@ -773,8 +773,16 @@ func (fr *Frame) evalCopy(s *State, call *ast.CallExpr) *Val {
 	newArr := fr.vc.declare("cparr", fmt.Sprintf("(Array Int %s)", es))
 	oldD := fmt.Sprintf("(select %s (sl_ref %s))", h, dst.S)
 	oldS := fmt.Sprintf("(select %s (sl_ref %s))", h, src.S)
-	s.assume(fmt.Sprintf("(forall ((i Int)) (! (=> (and (<= 0 i) (< i %s)) (= (select %s (ix (sl_off %s) i)) (select %s (ix (sl_off %s) i)))) :pattern ((select %s (ix (sl_off %s) i)))))",
-		n, newArr, dst.S, oldS, src.S, newArr, dst.S))
+	if dst.Sub != nil {
+		// destination is base[d:...]: state the copied window over positions j of the base slice so that the
+		// trigger is a plain element read base[j] of the result
+		B, d := dst.Sub[0], dst.Sub[1]
+		s.assume(fmt.Sprintf("(forall ((j Int)) (! (=> (and (<= %s j) (< j (+ %s %s))) (= (select %s (ix %s j)) (select %s %s))) :pattern ((select %s (ix %s j)))))",
+			d, d, n, newArr, B, oldS, elemAddr(src, fmt.Sprintf("(- j %s)", d)), newArr, B))
+	} else {
+		s.assume(fmt.Sprintf("(forall ((i Int)) (! (=> (and (<= 0 i) (< i %s)) (= (select %s (ix (sl_off %s) i)) (select %s %s))) :pattern ((select %s (ix (sl_off %s) i)))))",
+			n, newArr, dst.S, oldS, elemAddr(src, "i"), newArr, dst.S))
+	}
 	s.assume(fmt.Sprintf("(forall ((j Int)) (! (=> (or (< j (sl_off %s)) (>= j (+ (sl_off %s) %s))) (= (select %s j) (select %s j))) :pattern ((select %s j))))",
 		dst.S, dst.S, n, newArr, oldD, newArr))
 	s.setHeap(hn, hs, fmt.Sprintf("(store %s (sl_ref %s) %s)", h, dst.S, newArr))
